@@ -1278,6 +1278,7 @@ fn main() {
                     "C04" if pg.r.chance(1, 2) => pg.gc_expr(1),
                     "C07" if pg.r.chance(1, 2) => pg.restrict_expr(depth),
                     "C03" if pg.r.chance(1, 4) => pg.restrict_expr(depth),
+                    "C30" if pg.r.chance(1, 4) => pg.restrict_expr(depth),
                     "C03" if pg.r.chance(1, 6) => pg.crypto_expr(),
                     "C13" if pg.r.chance(1, 2) => pg.alloc_expr(),
                     "C08" if pg.r.chance(1, 4) && !secp.is_empty() => {
@@ -1410,7 +1411,7 @@ fn main() {
             }
             // C30: RuntimeDialect
             "C30" => {
-                let f = base_flags & !(0x0020 | 0x0200);
+                let f = (base_flags & !(0x0020 | 0x0200)) | if r.chance(1, 3) { 0x0008 } else { 0 };
                 run_one(&mut out, case, &prog, &env, &Cfg::new("chia", "chia", f, 0), &mut line);
                 run_one(&mut out, case, &prog, &env, &Cfg::new("runtime", "runtime", f, 0).rel("eq_outcome_c30", "chia"), &mut line);
             }
